@@ -25,9 +25,9 @@ enum Q {
     None,
     File(String),
     Sym(String),
-    Ext,
-    AllExt,
-    List,
+    Ext(String, i32),
+    AllExt(String),
+    List(String),
 }
 #[derive(Clone, Debug)]
 enum Sev {
@@ -39,7 +39,7 @@ enum Sev {
 enum Ans {
     Err(i32),
     Fd(Vec<Vec<u8>>),
-    AllExt { default: bool },
+    AllExt { base: String, numbers: Vec<i32> },
     List(Vec<String>),
     /// response envelope broken (no message_response, wrong echo, ...)
     Broken(String),
@@ -118,12 +118,12 @@ macro_rules! version {
                         Q::None => None,
                         Q::File(s) => Some(MessageRequest::FileByFilename(s.clone())),
                         Q::Sym(s) => Some(MessageRequest::FileContainingSymbol(s.clone())),
-                        Q::Ext => Some(MessageRequest::FileContainingExtension(pb::ExtensionRequest {
-                            containing_type: "p.M".into(),
-                            extension_number: 7,
+                        Q::Ext(t, n) => Some(MessageRequest::FileContainingExtension(pb::ExtensionRequest {
+                            containing_type: t.clone(),
+                            extension_number: *n,
                         })),
-                        Q::AllExt => Some(MessageRequest::AllExtensionNumbersOfType("p.M".into())),
-                        Q::List => Some(MessageRequest::ListServices(String::new())),
+                        Q::AllExt(t) => Some(MessageRequest::AllExtensionNumbersOfType(t.clone())),
+                        Q::List(c) => Some(MessageRequest::ListServices(c.clone())),
                     },
                 }
             }
@@ -140,7 +140,7 @@ macro_rules! version {
                     None => Ans::Broken("no message_response".into()),
                     Some(MessageResponse::FileDescriptorResponse(r)) => Ans::Fd(r.file_descriptor_proto),
                     Some(MessageResponse::AllExtensionNumbersResponse(r)) => {
-                        Ans::AllExt { default: r == pb::ExtensionNumberResponse::default() }
+                        Ans::AllExt { base: r.base_type_name, numbers: r.extension_number }
                     }
                     Some(MessageResponse::ListServicesResponse(r)) => {
                         Ans::List(r.service.into_iter().map(|s| s.name).collect())
@@ -292,14 +292,17 @@ fn coq_msg(m: &DescriptorProto) -> String {
 fn coq_service(s: &ServiceDescriptorProto) -> String {
     format!("(Service {} {})", coq_oname(&s.name), coq_list(&s.method, |m| coq_oname(&m.name)))
 }
-/// the opaque remainder of a descriptor is identified by the number in its first dependency
-/// entry ("t<N>", put there by the generator); 0 for foreign descriptors
+/// The content of a descriptor: a 64-bit FNV-1a digest of its full prost encoding (every field).
+/// The model carries it as the file's [f_rest]; a returned descriptor is digested the same way.
+/// (64 rather than 128 bits: Coq's parsing cost of the case files grows with the literal size; the
+/// oracle compares the full descriptors anyway.)
 fn rest_of(fd: &FileDescriptorProto) -> u64 {
-    fd.dependency
-        .first()
-        .and_then(|d| d.strip_prefix('t'))
-        .and_then(|n| n.parse().ok())
-        .unwrap_or(0)
+    let mut h: u64 = 0xcbf29ce484222325;
+    for b in fd.encode_to_vec() {
+        h ^= b as u64;
+        h = h.wrapping_mul(0x100000001b3);
+    }
+    h
 }
 fn coq_file(fd: &FileDescriptorProto) -> String {
     format!(
@@ -320,9 +323,9 @@ fn coq_q(q: &Q) -> String {
         Q::None => "NoMessageRequest".into(),
         Q::File(s) => format!("(FileByFilename {})", coq_name(s)),
         Q::Sym(s) => format!("(FileContainingSymbol {})", coq_name(s)),
-        Q::Ext => "FileContainingExtension".into(),
-        Q::AllExt => "AllExtensionNumbersOfType".into(),
-        Q::List => "ListServices".into(),
+        Q::Ext(t, n) => format!("(FileContainingExtension {} ({})%Z)", coq_name(t), n),
+        Q::AllExt(t) => format!("(AllExtensionNumbersOfType {})", coq_name(t)),
+        Q::List(c) => format!("(ListServices {})", coq_name(c)),
     }
 }
 fn coq_sev(e: &Sev) -> String {
@@ -345,8 +348,11 @@ fn ans_tr(a: &Ans) -> Tr {
             Err(_) => Tr::L(vec![Tr::n(9u8), Tr::n(1u8)]),
         },
         Ans::Fd(_) => Tr::L(vec![Tr::n(9u8), Tr::n(2u8)]),
-        Ans::AllExt { default: true } => Tr::L(vec![Tr::n(2u8)]),
-        Ans::AllExt { default: false } => Tr::L(vec![Tr::n(9u8), Tr::n(3u8)]),
+        Ans::AllExt { base, numbers } => Tr::L(vec![
+            Tr::n(2u8),
+            Tr::s(base),
+            Tr::L(numbers.iter().map(|n| Tr::n(*n as u32)).collect()),
+        ]),
         Ans::List(l) => Tr::L(vec![Tr::n(3u8), Tr::L(l.iter().map(|s| Tr::s(s)).collect())]),
         Ans::Broken(_) => Tr::L(vec![Tr::n(9u8), Tr::n(4u8)]),
     }
@@ -402,23 +408,40 @@ fn join(prefix: &str, n: &str) -> String {
         s
     }
 }
-/// every fully-qualified name the file declares, with its kind; None if some name is missing
-fn declared(fd: &FileDescriptorProto) -> Option<Vec<(String, &'static str)>> {
-    fn en(prefix: &str, e: &EnumDescriptorProto, out: &mut Vec<(String, &'static str)>) -> Option<()> {
+/// One declared fully-qualified name.  Naming: a name is qualified by its enclosing scope with a
+/// dot (no dot after an empty package).  For enum VALUES two schemes exist and the oracle accepts
+/// either: `name` = scoped by the enum (`pkg.Enum.VALUE`, what tonic-reflection registers) and
+/// `alt` = protobuf's own fully-qualified name, a sibling of the enum (`pkg.VALUE`).
+#[derive(Clone, Debug)]
+struct Decl {
+    name: String,
+    kind: &'static str,
+    alt: Option<String>,
+}
+impl Decl {
+    fn is(&self, s: &str) -> bool {
+        self.name == s || self.alt.as_deref() == Some(s)
+    }
+}
+/// every fully-qualified name the file declares (the eight kinds of the property), with its kind;
+/// None if some name is missing
+fn declared(fd: &FileDescriptorProto) -> Option<Vec<Decl>> {
+    fn en(prefix: &str, e: &EnumDescriptorProto, out: &mut Vec<Decl>) -> Option<()> {
         let n = join(prefix, e.name.as_deref()?);
         for v in &e.value {
-            out.push((join(&n, v.name.as_deref()?), "enum value"));
+            let vn = v.name.as_deref()?;
+            out.push(Decl { name: join(&n, vn), kind: "enum value", alt: Some(join(prefix, vn)) });
         }
-        out.push((n, "enum"));
+        out.push(Decl { name: n, kind: "enum", alt: None });
         Some(())
     }
-    fn ms(prefix: &str, depth: usize, m: &DescriptorProto, out: &mut Vec<(String, &'static str)>) -> Option<()> {
+    fn ms(prefix: &str, depth: usize, m: &DescriptorProto, out: &mut Vec<Decl>) -> Option<()> {
         let n = join(prefix, m.name.as_deref()?);
         for o in &m.oneof_decl {
-            out.push((join(&n, o.name.as_deref()?), "oneof"));
+            out.push(Decl { name: join(&n, o.name.as_deref()?), kind: "oneof", alt: None });
         }
         for f in &m.field {
-            out.push((join(&n, f.name.as_deref()?), "field"));
+            out.push(Decl { name: join(&n, f.name.as_deref()?), kind: "field", alt: None });
         }
         for e in &m.enum_type {
             en(&n, e, out)?;
@@ -426,7 +449,7 @@ fn declared(fd: &FileDescriptorProto) -> Option<Vec<(String, &'static str)>> {
         for x in &m.nested_type {
             ms(&n, depth + 1, x, out)?;
         }
-        out.push((n, if depth == 0 { "message" } else { "nested message" }));
+        out.push(Decl { name: n, kind: if depth == 0 { "message" } else { "nested message" }, alt: None });
         Some(())
     }
     let mut out = vec![];
@@ -434,9 +457,9 @@ fn declared(fd: &FileDescriptorProto) -> Option<Vec<(String, &'static str)>> {
     for s in &fd.service {
         let n = join(&p, s.name.as_deref()?);
         for m in &s.method {
-            out.push((join(&n, m.name.as_deref()?), "method"));
+            out.push(Decl { name: join(&n, m.name.as_deref()?), kind: "method", alt: None });
         }
-        out.push((n, "service"));
+        out.push(Decl { name: n, kind: "service", alt: None });
     }
     for e in &fd.enum_type {
         en(&p, e, &mut out)?;
@@ -445,6 +468,31 @@ fn declared(fd: &FileDescriptorProto) -> Option<Vec<(String, &'static str)>> {
         ms(&p, 0, m, &mut out)?;
     }
     Some(out)
+}
+/// extension fields a file declares: (fully-qualified extension name, extendee, number).  The
+/// property does not list extensions among the names that must resolve; they MAY resolve.
+fn declared_extensions(fd: &FileDescriptorProto) -> Vec<(String, String, i32)> {
+    fn ms(prefix: &str, m: &DescriptorProto, out: &mut Vec<(String, String, i32)>) {
+        let n = join(prefix, m.name.as_deref().unwrap_or(""));
+        for x in &m.extension {
+            out.push((join(&n, x.name.as_deref().unwrap_or("")), x.extendee.clone().unwrap_or_default(), x.number.unwrap_or(0)));
+        }
+        for y in &m.nested_type {
+            ms(&n, y, out);
+        }
+    }
+    let mut out = vec![];
+    let p = fd.package.clone().unwrap_or_default();
+    for x in &fd.extension {
+        out.push((join(&p, x.name.as_deref().unwrap_or("")), x.extendee.clone().unwrap_or_default(), x.number.unwrap_or(0)));
+    }
+    for m in &fd.message_type {
+        ms(&p, m, &mut out);
+    }
+    out
+}
+fn same_type(a: &str, b: &str) -> bool {
+    a.trim_start_matches('.') == b.trim_start_matches('.')
 }
 fn declared_services(fd: &FileDescriptorProto) -> Vec<String> {
     let p = fd.package.clone().unwrap_or_default();
@@ -498,14 +546,60 @@ struct Registered {
     undecodable: bool,
     include: bool,
     chosen: Option<Vec<String>>,
+    /// for files registered in encoded form: (prost's decode, the bytes of that file entry as
+    /// registered), split out of the set by a wire-level reader that knows nothing of descriptors
+    raw: Vec<(FileDescriptorProto, Vec<u8>)>,
+}
+/// the length-delimited field-1 entries of an encoded FileDescriptorSet; None if malformed
+fn split_file_entries(mut b: &[u8]) -> Option<Vec<Vec<u8>>> {
+    fn varint(b: &mut &[u8]) -> Option<u64> {
+        let mut v = 0u64;
+        for i in 0..10 {
+            let x = *b.first()?;
+            *b = &b[1..];
+            v |= ((x & 0x7f) as u64) << (7 * i);
+            if x < 0x80 {
+                return Some(v);
+            }
+        }
+        None
+    }
+    let mut out = vec![];
+    while !b.is_empty() {
+        let key = varint(&mut b)?;
+        match key & 7 {
+            0 => {
+                varint(&mut b)?;
+            }
+            1 => b = b.get(8..)?,
+            5 => b = b.get(4..)?,
+            2 => {
+                let n = varint(&mut b)? as usize;
+                let body = b.get(..n)?;
+                b = &b[n..];
+                if key >> 3 == 1 {
+                    out.push(body.to_vec());
+                }
+            }
+            _ => return None,
+        }
+    }
+    Some(out)
 }
 fn registered_of(c: &CaseIn) -> Registered {
-    let mut r = Registered { files: vec![], undecodable: false, include: true, chosen: None };
+    let mut r = Registered { files: vec![], undecodable: false, include: true, chosen: None, raw: vec![] };
     for op in &c.ops {
         match op {
             Op::Set(s) => r.files.extend(s.file.iter().cloned()),
             Op::Enc(e) => match FileDescriptorSet::decode(&e[..]) {
-                Ok(s) => r.files.extend(s.file),
+                Ok(s) => {
+                    if let Some(entries) = split_file_entries(e) {
+                        if entries.len() == s.file.len() {
+                            r.raw.extend(s.file.iter().cloned().zip(entries));
+                        }
+                    }
+                    r.files.extend(s.file)
+                }
                 Err(_) => r.undecodable = true,
             },
             Op::Include(i) => r.include = *i,
@@ -521,6 +615,18 @@ struct Notes {
     shadowed_file_not_retrievable: u64,
     duplicate_symbol_across_files: u64,
     duplicate_service_in_list: u64,
+    enum_value_scoped_found: u64,
+    enum_value_scoped_not_found: u64,
+    enum_value_sibling_found: u64,
+    enum_value_sibling_not_found: u64,
+    extension_name_found: u64,
+    extension_name_not_found: u64,
+    declared_extension_lookup_found: u64,
+    declared_extension_lookup_not_found: u64,
+    undeclared_extension_lookup_not_found: u64,
+    all_extension_numbers_declared_but_empty: u64,
+    all_extension_numbers_nonempty: u64,
+    encoded_with_unknown_fields_returned_without_them: u64,
 }
 
 /// Direct check of the property on one version's answers.  `all` = user files plus (if included)
@@ -553,7 +659,8 @@ fn oracle_version(
         }
     }
     let certain = |f: &FileDescriptorProto| f.name.as_ref().map_or(false, |n| by_name[n].len() == 1);
-    let decls: Vec<Option<Vec<(String, &'static str)>>> = all.iter().map(declared).collect();
+    let decls: Vec<Option<Vec<Decl>>> = all.iter().map(declared).collect();
+    let exts: Vec<Vec<(String, String, i32)>> = all.iter().map(declared_extensions).collect();
     let must_fail = reg.undecodable || unnamed || all.iter().zip(&decls).any(|(f, d)| certain(f) && d.is_none());
     let must_succeed = !reg.undecodable && !unnamed && decls.iter().all(|d| d.is_some());
     let (per_query, script) = match obs {
@@ -586,18 +693,43 @@ fn oracle_version(
         }
         match q {
             Q::Sym(s) => {
+                // files that declare s under either naming scheme
                 let declaring: Vec<usize> = (0..all.len())
-                    .filter(|i| decls[*i].as_ref().map_or(false, |d| d.iter().any(|(n, _)| n == s)))
+                    .filter(|i| decls[*i].as_ref().map_or(false, |d| d.iter().any(|x| x.is(s))))
                     .collect();
+                // ... as one of the eight kinds under a name that is not merely an enum value's other name
+                let strict: Vec<usize> = (0..all.len())
+                    .filter(|i| decls[*i].as_ref().map_or(false, |d| d.iter().any(|x| x.kind != "enum value" && x.name == *s)))
+                    .collect();
+                let ext_named: Vec<usize> = (0..all.len()).filter(|i| exts[*i].iter().any(|x| x.0 == *s)).collect();
+                // is s one of the two names of an enum value (and nothing else)?
+                let value_role = |sel: &dyn Fn(&Decl) -> bool| {
+                    strict.is_empty()
+                        && decls.iter().flatten().any(|d| d.iter().any(|x| x.kind == "enum value" && sel(x)))
+                };
+                let as_scoped = value_role(&|x: &Decl| x.name == *s);
+                let as_sibling = value_role(&|x: &Decl| x.alt.as_deref() == Some(s.as_str()) && x.name != *s);
+                let found = matches!(a, Ans::Fd(_));
+                if as_scoped && !as_sibling {
+                    if found { notes.enum_value_scoped_found += 1 } else { notes.enum_value_scoped_not_found += 1 }
+                }
+                if as_sibling && !as_scoped {
+                    if found { notes.enum_value_sibling_found += 1 } else { notes.enum_value_sibling_not_found += 1 }
+                }
+                if declaring.is_empty() && !ext_named.is_empty() {
+                    if found { notes.extension_name_found += 1 } else { notes.extension_name_not_found += 1 }
+                }
                 match a {
                     Ans::Fd(v) if v.len() == 1 => {
                         let Ok(fd) = FileDescriptorProto::decode(&v[0][..]) else {
                             return Some(format!("{label}: descriptor returned for symbol '{s}' does not decode"));
                         };
                         if !all.iter().any(|f| *f == fd) {
-                            return Some(format!("{label}: symbol '{s}' resolved to a descriptor that was not registered"));
+                            return Some(format!("{label}: symbol '{s}' resolved to a descriptor that is not equal (all fields) to any registered one"));
                         }
-                        if !declared(&fd).map_or(false, |d| d.iter().any(|(n, _)| n == s)) {
+                        let declares_it = declared(&fd).map_or(false, |d| d.iter().any(|x| x.is(s)))
+                            || declared_extensions(&fd).iter().any(|x| x.0 == *s);
+                        if !declares_it {
                             return Some(format!(
                                 "{label}: symbol '{s}' resolved to file {:?} which does not declare it",
                                 fd.name
@@ -610,13 +742,35 @@ fn oracle_version(
                         }
                     }
                     Ans::Err(5) => {
-                        if let Some(i) = declaring.iter().find(|i| certain(&all[**i])) {
+                        if let Some(i) = strict.iter().find(|i| certain(&all[**i])) {
                             return Some(format!(
                                 "{label}: declared symbol '{s}' of registered file {:?} is NOT_FOUND",
                                 all[*i].name
                             ));
                         }
-                        if !declaring.is_empty() {
+                        // an enum value must resolve under at least one of its two names
+                        for (i, d) in decls.iter().enumerate() {
+                            let Some(d) = d else { continue };
+                            if !certain(&all[i]) {
+                                continue;
+                            }
+                            for x in d.iter().filter(|x| x.kind == "enum value" && x.is(s)) {
+                                let other = if x.name == *s { x.alt.clone().unwrap() } else { x.name.clone() };
+                                // the other name's own answer (if it was not asked, this value cannot be judged here)
+                                let other_answer = queries
+                                    .iter()
+                                    .zip(per_query)
+                                    .find(|(q2, _)| **q2 == Q::Sym(other.clone()))
+                                    .map(|(_, so2)| matches!(so2.answers.first(), Some(Ans::Fd(_))));
+                                if other == *s || other_answer == Some(false) {
+                                    return Some(format!(
+                                        "{label}: enum value '{}' of registered file {:?} resolves neither as '{}' nor as '{}'",
+                                        x.name, all[i].name, x.name, x.alt.clone().unwrap()
+                                    ));
+                                }
+                            }
+                        }
+                        if !strict.is_empty() {
                             notes.shadowed_symbol_not_found += 1;
                         }
                     }
@@ -634,12 +788,17 @@ fn oracle_version(
                     if cands.len() > 1 {
                         notes.shadowed_file_not_retrievable += 1;
                     }
+                    // registered in encoded form with fields prost does not know: what comes back is
+                    // prost's reading of it, not the registered bytes
+                    if reg.raw.iter().any(|(f, raw)| *f == fd && *raw != v[0]) && !reg.raw.iter().any(|(f, raw)| *f == fd && *raw == v[0]) {
+                        notes.encoded_with_unknown_fields_returned_without_them += 1;
+                    }
                 }
                 (Ans::Err(5), None) => {}
                 (other, Some(_)) => return Some(format!("{label}: registered file '{n}' answered {:?}", other)),
                 (other, None) => return Some(format!("{label}: unknown file '{n}' answered {:?}", other)),
             },
-            Q::List => {
+            Q::List(_) => {
                 let Ans::List(l) = a else {
                     return Some(format!("{label}: ListServices answered {:?}", a));
                 };
@@ -680,14 +839,50 @@ fn oracle_version(
                     }
                 }
             }
-            Q::Ext => {
-                if *a != Ans::Err(5) {
-                    return Some(format!("{label}: extension request answered {:?}", a));
+            // The property does not ask for extension lookups.  Accepted: "not supported / not found"
+            // (NOT_FOUND or UNIMPLEMENTED), or a correct answer; never a wrong file or wrong numbers.
+            Q::Ext(t, n) => {
+                let declaring: Vec<usize> =
+                    (0..all.len()).filter(|i| exts[*i].iter().any(|x| same_type(&x.1, t) && x.2 == *n)).collect();
+                match a {
+                    Ans::Err(5) | Ans::Err(12) => {
+                        if declaring.is_empty() {
+                            notes.undeclared_extension_lookup_not_found += 1
+                        } else {
+                            notes.declared_extension_lookup_not_found += 1
+                        }
+                    }
+                    Ans::Fd(v) if v.len() == 1 => {
+                        let ok = FileDescriptorProto::decode(&v[0][..])
+                            .map_or(false, |fd| declaring.iter().any(|i| all[*i] == fd));
+                        if !ok {
+                            return Some(format!("{label}: extension {n} of '{t}' resolved to a file that does not declare it"));
+                        }
+                        notes.declared_extension_lookup_found += 1;
+                    }
+                    other => return Some(format!("{label}: extension request answered {:?}", other)),
                 }
             }
-            Q::AllExt => {
-                if *a != (Ans::AllExt { default: true }) {
-                    return Some(format!("{label}: all-extension-numbers answered {:?}", a));
+            Q::AllExt(t) => {
+                let numbers: BTreeSet<i32> =
+                    exts.iter().flatten().filter(|x| same_type(&x.1, t)).map(|x| x.2).collect();
+                match a {
+                    Ans::AllExt { base, numbers: got } => {
+                        if !(base.is_empty() || same_type(base, t)) {
+                            return Some(format!("{label}: all-extension-numbers of '{t}' answered for type '{base}'"));
+                        }
+                        if let Some(x) = got.iter().find(|x| !numbers.contains(x)) {
+                            return Some(format!("{label}: all-extension-numbers of '{t}' lists {x}, which no registered file declares"));
+                        }
+                        if got.is_empty() && !numbers.is_empty() {
+                            notes.all_extension_numbers_declared_but_empty += 1;
+                        }
+                        if !got.is_empty() {
+                            notes.all_extension_numbers_nonempty += 1;
+                        }
+                    }
+                    Ans::Err(5) | Ans::Err(12) => {}
+                    other => return Some(format!("{label}: all-extension-numbers answered {:?}", other)),
                 }
             }
             Q::None => {
@@ -706,7 +901,10 @@ fn own_names(own: &FileDescriptorSet) -> (BTreeSet<String>, BTreeSet<String>, BT
     let mut svcs = BTreeSet::new();
     for f in &own.file {
         if let Some(d) = declared(f) {
-            syms.extend(d.into_iter().map(|x| x.0));
+            for x in d {
+                syms.extend(x.alt);
+                syms.insert(x.name);
+            }
         }
         files.extend(f.name.clone());
         svcs.extend(declared_services(f));
@@ -848,33 +1046,185 @@ impl G {
             self.r.below(max + 1)
         }
     }
+    // ---- random content for every field the index does not read (it must come back unchanged)
+    fn ostr(&mut self, pool: &[&str]) -> Option<String> {
+        if self.r.chance(1, 3) {
+            Some(self.r.pick(pool).to_string())
+        } else {
+            None
+        }
+    }
+    fn ob(&mut self) -> Option<bool> {
+        match self.r.below(4) {
+            0 => Some(true),
+            1 => Some(false),
+            _ => None,
+        }
+    }
+    fn oi(&mut self, lo: i64, hi: i64) -> Option<i32> {
+        if self.r.chance(1, 3) {
+            Some((lo + self.r.below((hi - lo + 1) as u64) as i64) as i32)
+        } else {
+            None
+        }
+    }
+    fn uninterpreted(&mut self) -> Vec<prost_types::UninterpretedOption> {
+        let n = if self.r.chance(1, 4) { self.r.range(1, 2) } else { 0 };
+        (0..n)
+            .map(|_| prost_types::UninterpretedOption {
+                name: (0..self.r.range(0, 2))
+                    .map(|_| prost_types::uninterpreted_option::NamePart {
+                        name_part: self.r.pick(&["my.opt", "x", ""]).to_string(),
+                        is_extension: self.r.chance(1, 2),
+                    })
+                    .collect(),
+                identifier_value: self.ostr(&["IDENT", ""]),
+                positive_int_value: if self.r.chance(1, 3) { Some(self.r.next()) } else { None },
+                negative_int_value: if self.r.chance(1, 3) { Some(-(self.r.below(1 << 40) as i64)) } else { None },
+                double_value: if self.r.chance(1, 3) { Some(self.r.below(1000) as f64 / 8.0 - 3.0) } else { None },
+                string_value: if self.r.chance(1, 3) { Some(self.r.bytes(3)) } else { None },
+                aggregate_value: self.ostr(&["{a:1}", ""]),
+            })
+            .collect()
+    }
+    fn file_options(&mut self) -> Option<prost_types::FileOptions> {
+        if !self.r.chance(1, 3) {
+            return None;
+        }
+        Some(prost_types::FileOptions {
+            java_package: self.ostr(&["com.x", ""]),
+            java_outer_classname: self.ostr(&["Outer"]),
+            java_multiple_files: self.ob(),
+            #[allow(deprecated)]
+            java_generate_equals_and_hash: self.ob(),
+            java_string_check_utf8: self.ob(),
+            optimize_for: self.oi(1, 3),
+            go_package: self.ostr(&["example.com/x;x"]),
+            cc_generic_services: self.ob(),
+            java_generic_services: self.ob(),
+            py_generic_services: self.ob(),
+            php_generic_services: self.ob(),
+            deprecated: self.ob(),
+            cc_enable_arenas: self.ob(),
+            objc_class_prefix: self.ostr(&["OBJ"]),
+            csharp_namespace: self.ostr(&["X.Y"]),
+            swift_prefix: self.ostr(&["SW"]),
+            php_class_prefix: self.ostr(&["PH"]),
+            php_namespace: self.ostr(&["X\\Y"]),
+            php_metadata_namespace: self.ostr(&["X\\M"]),
+            ruby_package: self.ostr(&["X::Y"]),
+            uninterpreted_option: self.uninterpreted(),
+        })
+    }
+    fn source_info(&mut self) -> Option<prost_types::SourceCodeInfo> {
+        if !self.r.chance(1, 3) {
+            return None;
+        }
+        let n = self.r.range(0, 3);
+        Some(prost_types::SourceCodeInfo {
+            location: (0..n)
+                .map(|_| prost_types::source_code_info::Location {
+                    path: (0..self.r.range(0, 4)).map(|_| self.r.below(12) as i32).collect(),
+                    span: (0..self.r.range(3, 4)).map(|_| self.r.below(200) as i32).collect(),
+                    leading_comments: self.ostr(&[" leading\n", ""]),
+                    trailing_comments: self.ostr(&[" trailing \u{e9}\n"]),
+                    leading_detached_comments: (0..self.r.range(0, 2)).map(|_| " detached\n".to_string()).collect(),
+                })
+                .collect(),
+        })
+    }
+    fn field(&mut self, name: Option<String>, number: i32, n_oneof: u64, extension: bool) -> FieldDescriptorProto {
+        let ty = *self.r.pick(&[1, 3, 5, 8, 9, 11, 12, 13, 14, 17]);
+        FieldDescriptorProto {
+            name,
+            number: if self.r.chance(9, 10) { Some(number) } else { None },
+            label: self.oi(1, 3),
+            r#type: if self.r.chance(4, 5) { Some(ty) } else { None },
+            type_name: if ty == 11 || ty == 14 || self.r.chance(1, 6) { Some(self.r.pick(&[".p.M", ".p.q.M.N", "E", ".x.Y"]).to_string()) } else { None },
+            extendee: if extension { Some(self.r.pick(&[".p.M", "p.M", ".p.q.M", "p.q.M", "M", ".x.Y"]).to_string()) } else { None },
+            default_value: self.ostr(&["0", "abc", "true", "-1.5", ""]),
+            oneof_index: if !extension && n_oneof > 0 && self.r.chance(1, 2) { Some(self.r.below(n_oneof) as i32) } else { None },
+            json_name: self.ostr(&["jsonName", "f"]),
+            options: if self.r.chance(1, 3) {
+                Some(prost_types::FieldOptions {
+                    ctype: self.oi(0, 2),
+                    packed: self.ob(),
+                    jstype: self.oi(0, 2),
+                    lazy: self.ob(),
+                    deprecated: self.ob(),
+                    weak: self.ob(),
+                    uninterpreted_option: self.uninterpreted(),
+                })
+            } else {
+                None
+            },
+            proto3_optional: self.ob(),
+        }
+    }
+    fn extensions(&mut self) -> Vec<FieldDescriptorProto> {
+        let n = if self.r.chance(1, 4) { self.r.range(1, 2) } else { 0 };
+        (0..n)
+            .map(|_| {
+                let name = if self.r.chance(1, 20) { None } else { Some(self.r.pick(&["ext1", "ext2", "f", "M"]).to_string()) };
+                let number = 100 + self.r.below(4) as i32;
+                self.field(name, number, 0, true)
+            })
+            .collect()
+    }
+    fn reserved_names(&mut self) -> Vec<String> {
+        if self.r.chance(1, 4) {
+            (0..self.r.range(1, 2)).map(|_| self.r.pick(&["old", "gone", "f"]).to_string()).collect()
+        } else {
+            vec![]
+        }
+    }
     fn enum_(&mut self) -> EnumDescriptorProto {
         let name = self.nm(ENUM_NAMES);
         let n = self.count(3);
         EnumDescriptorProto {
             name,
             value: (0..n)
-                .map(|i| EnumValueDescriptorProto { name: self.nm(VALUE_NAMES), number: Some(i as i32), options: None })
+                .map(|i| EnumValueDescriptorProto {
+                    name: self.nm(VALUE_NAMES),
+                    number: if self.r.chance(9, 10) { Some(i as i32 - 1) } else { None },
+                    options: if self.r.chance(1, 4) {
+                        Some(prost_types::EnumValueOptions { deprecated: self.ob(), uninterpreted_option: self.uninterpreted() })
+                    } else {
+                        None
+                    },
+                })
                 .collect(),
-            ..Default::default()
+            options: if self.r.chance(1, 4) {
+                Some(prost_types::EnumOptions { allow_alias: self.ob(), deprecated: self.ob(), uninterpreted_option: self.uninterpreted() })
+            } else {
+                None
+            },
+            reserved_range: if self.r.chance(1, 4) {
+                vec![prost_types::enum_descriptor_proto::EnumReservedRange { start: self.oi(-5, 5), end: self.oi(6, 20) }]
+            } else {
+                vec![]
+            },
+            reserved_name: self.reserved_names(),
         }
     }
     fn msg(&mut self, depth: u32) -> DescriptorProto {
         let name = self.nm(MSG_NAMES);
         let n_one = self.count(2);
-        let oneof_decl: Vec<_> =
-            (0..n_one).map(|_| OneofDescriptorProto { name: self.nm(ONEOF_NAMES), options: None }).collect();
+        let oneof_decl: Vec<_> = (0..n_one)
+            .map(|_| OneofDescriptorProto {
+                name: self.nm(ONEOF_NAMES),
+                options: if self.r.chance(1, 4) {
+                    Some(prost_types::OneofOptions { uninterpreted_option: self.uninterpreted() })
+                } else {
+                    None
+                },
+            })
+            .collect();
         let n_f = self.count(3);
         let field = (0..n_f)
-            .map(|i| FieldDescriptorProto {
-                name: self.nm(FIELD_NAMES),
-                number: Some(i as i32 + 1),
-                label: Some(1),
-                r#type: Some(if self.r.chance(1, 3) { 11 } else { 5 }),
-                type_name: if self.r.chance(1, 3) { Some(".p.M".into()) } else { None },
-                oneof_index: if n_one > 0 && self.r.chance(1, 2) { Some(0) } else { None },
-                json_name: if self.r.chance(1, 4) { Some("j".into()) } else { None },
-                ..Default::default()
+            .map(|i| {
+                let nm = self.nm(FIELD_NAMES);
+                self.field(nm, i as i32 + 1, n_one, false)
             })
             .collect();
         let n_e = self.count(2);
@@ -890,15 +1240,40 @@ impl G {
         DescriptorProto {
             name,
             field,
+            extension: self.extensions(),
             nested_type,
             enum_type,
+            extension_range: if self.r.chance(1, 4) {
+                vec![prost_types::descriptor_proto::ExtensionRange {
+                    start: self.oi(100, 100),
+                    end: self.oi(200, 536870912),
+                    options: if self.r.chance(1, 2) {
+                        Some(prost_types::ExtensionRangeOptions { uninterpreted_option: self.uninterpreted() })
+                    } else {
+                        None
+                    },
+                }]
+            } else {
+                vec![]
+            },
             oneof_decl,
-            options: if self.r.chance(1, 8) {
-                Some(prost_types::MessageOptions { deprecated: Some(true), ..Default::default() })
+            options: if self.r.chance(1, 4) {
+                Some(prost_types::MessageOptions {
+                    message_set_wire_format: self.ob(),
+                    no_standard_descriptor_accessor: self.ob(),
+                    deprecated: self.ob(),
+                    map_entry: self.ob(),
+                    uninterpreted_option: self.uninterpreted(),
+                })
             } else {
                 None
             },
-            ..Default::default()
+            reserved_range: if self.r.chance(1, 4) {
+                vec![prost_types::descriptor_proto::ReservedRange { start: self.oi(10, 20), end: self.oi(21, 30) }]
+            } else {
+                vec![]
+            },
+            reserved_name: self.reserved_names(),
         }
     }
     /// a chain of nested messages of the maximal depth, so that depth 4 is always exercised
@@ -917,17 +1292,29 @@ impl G {
             method: (0..n)
                 .map(|_| MethodDescriptorProto {
                     name: self.nm(METHOD_NAMES),
-                    input_type: Some(".p.M".into()),
-                    output_type: Some(".p.N".into()),
-                    options: None,
-                    client_streaming: if self.r.chance(1, 3) { Some(true) } else { None },
-                    server_streaming: None,
+                    input_type: self.ostr(&[".p.M", "M", ".google.protobuf.Empty"]),
+                    output_type: self.ostr(&[".p.N", ".p.q.M.N"]),
+                    options: if self.r.chance(1, 4) {
+                        Some(prost_types::MethodOptions {
+                            deprecated: self.ob(),
+                            idempotency_level: self.oi(0, 2),
+                            uninterpreted_option: self.uninterpreted(),
+                        })
+                    } else {
+                        None
+                    },
+                    client_streaming: self.ob(),
+                    server_streaming: self.ob(),
                 })
                 .collect(),
-            options: None,
+            options: if self.r.chance(1, 4) {
+                Some(prost_types::ServiceOptions { deprecated: self.ob(), uninterpreted_option: self.uninterpreted() })
+            } else {
+                None
+            },
         }
     }
-    fn file(&mut self, name: Option<String>, tag: u64) -> FileDescriptorProto {
+    fn file(&mut self, name: Option<String>) -> FileDescriptorProto {
         self.budget = self.r.range(4, 28) as i64;
         let package = self.r.pick(PACKAGES).map(|s| s.to_string());
         let n_m = self.r.below(4);
@@ -942,17 +1329,66 @@ impl G {
         self.budget = self.budget.max(4);
         let n_s = self.count(2);
         let service = (0..n_s).map(|_| self.service()).collect();
+        let n_dep = self.r.below(4);
         FileDescriptorProto {
             name,
             package,
-            dependency: vec![format!("t{}", tag)],
+            dependency: (0..n_dep).map(|_| self.r.pick(&["google/protobuf/empty.proto", "a.proto", "x/c.proto", "other.proto"]).to_string()).collect(),
+            public_dependency: if n_dep > 0 && self.r.chance(1, 3) { vec![self.r.below(n_dep) as i32] } else { vec![] },
+            weak_dependency: if n_dep > 0 && self.r.chance(1, 4) { vec![self.r.below(n_dep) as i32] } else { vec![] },
             message_type,
             enum_type,
             service,
-            syntax: if self.r.chance(1, 2) { Some("proto3".into()) } else { None },
-            ..Default::default()
+            extension: self.extensions(),
+            options: self.file_options(),
+            source_code_info: self.source_info(),
+            syntax: self.ostr(&["proto3", "proto2", "editions"]),
         }
     }
+}
+
+// ---- protobuf wire helpers, to register encoded sets that carry fields prost does not know
+fn put_varint(out: &mut Vec<u8>, mut v: u64) {
+    while v >= 0x80 {
+        out.push((v as u8 & 0x7f) | 0x80);
+        v >>= 7;
+    }
+    out.push(v as u8);
+}
+fn put_key(out: &mut Vec<u8>, field: u64, wire: u64) {
+    put_varint(out, (field << 3) | wire);
+}
+/// the set's encoding with unknown fields added at set level, at file level and (a custom option,
+/// field 50000) inside the file options; returns the bytes and the bytes of each file entry
+fn encode_with_unknown_fields(set: &FileDescriptorSet) -> (Vec<u8>, Vec<Vec<u8>>) {
+    let mut out = vec![];
+    let mut raws = vec![];
+    for f in &set.file {
+        let mut f2 = f.clone();
+        let opts = f2.options.take();
+        let mut fb = f2.encode_to_vec();
+        put_key(&mut fb, 1000, 0);
+        put_varint(&mut fb, 7);
+        put_key(&mut fb, 1001, 2);
+        put_varint(&mut fb, 3);
+        fb.extend(b"xyz");
+        if let Some(o) = opts {
+            let mut ob = o.encode_to_vec();
+            put_key(&mut ob, 50000, 0);
+            put_varint(&mut ob, 1);
+            put_key(&mut fb, 8, 2);
+            put_varint(&mut fb, ob.len() as u64);
+            fb.extend(ob);
+        }
+        put_key(&mut out, 1, 2);
+        put_varint(&mut out, fb.len() as u64);
+        out.extend(&fb);
+        raws.push(fb);
+    }
+    put_key(&mut out, 15, 0);
+    put_varint(&mut out, 1);
+    assert!(FileDescriptorSet::decode(&out[..]).ok().as_ref() == Some(set), "unknown-field injection changed the known fields");
+    (out, raws)
 }
 
 fn mutate(r: &mut Rng, s: &str) -> String {
@@ -1000,7 +1436,6 @@ fn gen_case(seed: u64, out: &mut Out) -> CaseIn {
     let mut names: Vec<&str> = FILE_NAMES.to_vec();
     let mut dup_kind = "none";
     for i in 0..nfiles {
-        let tag = i as u64 + 1;
         if i > 0 && r.chance(1, 5) {
             let j = r.below(i as u64) as usize;
             if r.chance(3, 5) {
@@ -1008,7 +1443,7 @@ fn gen_case(seed: u64, out: &mut Out) -> CaseIn {
                 dup_kind = if dup_kind == "conflict" { "both" } else { "identical" };
             } else {
                 let n = files[j].name.clone();
-                files.push(g.file(n, tag)); // another file under the same name
+                files.push(g.file(n)); // another file under the same name
                 dup_kind = if dup_kind == "identical" { "both" } else { "conflict" };
             }
             continue;
@@ -1016,7 +1451,7 @@ fn gen_case(seed: u64, out: &mut Out) -> CaseIn {
         let k = r.below(names.len() as u64) as usize;
         let n = names.remove(k);
         let name = if g.miss > 0 && r.chance(1, 15) { None } else { Some(n.to_string()) };
-        files.push(g.file(name, tag));
+        files.push(g.file(name));
     }
     out.hist("files_per_case", nfiles);
     out.hist("duplicate_file_registration", dup_kind);
@@ -1044,10 +1479,11 @@ fn gen_case(seed: u64, out: &mut Out) -> CaseIn {
             return;
         }
         let s = FileDescriptorSet { file: std::mem::take(cur) };
-        if r.chance(1, 2) {
-            ops.push(Op::Set(s));
-        } else {
-            ops.push(Op::Enc(s.encode_to_vec()));
+        match r.below(6) {
+            0..=2 => ops.push(Op::Set(s)),
+            3 | 4 => ops.push(Op::Enc(s.encode_to_vec())),
+            // encoded, carrying fields prost does not know (custom options, newer descriptor fields)
+            _ => ops.push(Op::Enc(encode_with_unknown_fields(&s).0)),
         }
     };
     for f in files {
@@ -1087,14 +1523,18 @@ fn gen_case(seed: u64, out: &mut Out) -> CaseIn {
     // what is declared (independent reading), for queries
     let tmp = CaseIn { ops: ops.clone(), queries: vec![], script: vec![] };
     let reg = registered_of(&tmp);
-    let mut decl: Vec<(String, &'static str)> = vec![];
+    let mut decl: Vec<Decl> = vec![];
     let mut svcs: Vec<String> = vec![];
+    let mut exts: Vec<(String, String, i32)> = vec![];
     for f in &reg.files {
         if let Some(d) = declared(f) {
             decl.extend(d);
         }
         svcs.extend(declared_services(f));
+        exts.extend(declared_extensions(f));
     }
+    out.hist("encoded_set_with_unknown_fields", reg.raw.iter().any(|(f, raw)| f.encode_to_vec() != *raw));
+    out.hist("extensions_declared", exts.len().min(4));
     if r.chance(1, 5) {
         let n = r.range(1, 3);
         for _ in 0..n {
@@ -1108,20 +1548,26 @@ fn gen_case(seed: u64, out: &mut Out) -> CaseIn {
     }
     // queries
     let mut seen = BTreeSet::new();
-    decl.retain(|(n, _)| seen.insert(n.clone()));
+    decl.retain(|d| seen.insert(d.name.clone()));
     while decl.len() > 48 {
         let k = r.below(decl.len() as u64) as usize;
         decl.swap_remove(k);
     }
     let mut queries: Vec<Q> = vec![];
-    for (n, kind) in &decl {
-        out.hist("queried_declared_kind", kind);
-        queries.push(Q::Sym(n.clone()));
+    for d in &decl {
+        out.hist("queried_declared_kind", d.kind);
+        queries.push(Q::Sym(d.name.clone()));
+        if let Some(alt) = &d.alt {
+            queries.push(Q::Sym(alt.clone())); // the enum value under protobuf's own scoping (pkg.VALUE)
+        }
     }
     let n_mut = (decl.len() as u64).min(10);
     for _ in 0..n_mut {
-        let (n, _) = r.pick(&decl).clone();
+        let n = r.pick(&decl).name.clone();
         queries.push(Q::Sym(mutate(&mut r, &n)));
+    }
+    for x in exts.iter().take(3) {
+        queries.push(Q::Sym(x.0.clone())); // the fully-qualified name of an extension field
     }
     for u in ["", ".", "nope", "p", "p.q", "p.q.M.nope"] {
         if r.chance(1, 2) {
@@ -1151,10 +1597,27 @@ fn gen_case(seed: u64, out: &mut Out) -> CaseIn {
             queries.push(Q::File(u.to_string()));
         }
     }
-    queries.push(Q::List);
-    if r.chance(1, 3) {
-        queries.push(Q::AllExt);
-        queries.push(Q::Ext);
+    queries.push(Q::List(r.pick(&["", "*", "x"]).to_string()));
+    if r.chance(1, 2) {
+        // extension requests: declared (extendee, number) pairs with and without the leading dot,
+        // declared message names, unknown types, boundary numbers
+        let msgs: Vec<String> = decl.iter().filter(|d| d.kind.ends_with("message")).map(|d| d.name.clone()).collect();
+        let mut types: Vec<String> = vec!["p.M".into(), ".p.M".into(), "".into(), "x.Y".into(), "nope".into()];
+        types.extend(msgs.iter().take(4).cloned());
+        types.extend(exts.iter().map(|x| x.1.clone()));
+        types.extend(exts.iter().map(|x| x.1.trim_start_matches('.').to_string()));
+        let numbers = [0, 1, 7, 100, 101, 102, 103, -1, i32::MAX, i32::MIN];
+        for x in exts.iter().take(3) {
+            queries.push(Q::Ext(x.1.clone(), x.2));
+            queries.push(Q::Ext(x.1.trim_start_matches('.').to_string(), x.2));
+            queries.push(Q::AllExt(x.1.clone()));
+        }
+        for _ in 0..r.range(1, 4) {
+            queries.push(Q::Ext(r.pick(&types).clone(), *r.pick(&numbers)));
+        }
+        for _ in 0..r.range(1, 3) {
+            queries.push(Q::AllExt(r.pick(&types).clone()));
+        }
         queries.push(Q::None);
     }
     let mut seenq: Vec<Q> = vec![];
@@ -1243,11 +1706,11 @@ fn corpus() -> Vec<CaseIn> {
     let near = ["p.q", "p", "p.q.M.A", "p.q.A", "p.q.X", "M", "q.M", "p.q.M.", ".p.q.M", "p.q.m", "p.q.S.get", "p.q.M.N.O.P.Q.R", ""];
     let mut q = syms(&all);
     q.extend(syms(&near));
-    q.extend([Q::File("a.proto".into()), Q::File("A.proto".into()), Q::File("a.prot".into()), Q::List, Q::AllExt, Q::Ext, Q::None]);
+    q.extend([Q::File("a.proto".into()), Q::File("A.proto".into()), Q::File("a.prot".into()), Q::List(String::new()), Q::AllExt("p.q.M".into()), Q::Ext("p.q.M".into(), 7), Q::None]);
     v.push(CaseIn {
         ops: vec![Op::Set(FileDescriptorSet { file: vec![a.clone()] })],
         queries: q.clone(),
-        script: vec![Sev::Req(Q::List), Sev::Req(Q::Sym("p.q.M".into())), Sev::Req(Q::Sym("nope".into())), Sev::Req(Q::List)],
+        script: vec![Sev::Req(Q::List(String::new())), Sev::Req(Q::Sym("p.q.M".into())), Sev::Req(Q::Sym("nope".into())), Sev::Req(Q::List(String::new()))],
     });
     // 1: the same, encoded, reflection descriptor excluded, chosen service names
     v.push(CaseIn {
@@ -1258,7 +1721,7 @@ fn corpus() -> Vec<CaseIn> {
             Op::Name("p.q.S".into()),
         ],
         queries: q.clone(),
-        script: vec![Sev::Req(Q::List), Sev::Bad, Sev::Req(Q::List)],
+        script: vec![Sev::Req(Q::List(String::new())), Sev::Bad, Sev::Req(Q::List(String::new()))],
     });
     // 2: no package / empty package / file registered twice (identical)
     let mut b = fd("b.proto", None, 2);
@@ -1275,7 +1738,7 @@ fn corpus() -> Vec<CaseIn> {
         ],
         queries: {
             let mut q = syms(&["M", "E", "E.V", "V", "S", "S.m", "C", ".M", "p.q.M", "p.q.S"]);
-            q.extend([Q::File("b.proto".into()), Q::File("c.proto".into()), Q::File("a.proto".into()), Q::List]);
+            q.extend([Q::File("b.proto".into()), Q::File("c.proto".into()), Q::File("a.proto".into()), Q::List(String::new())]);
             q
         },
         script: vec![Sev::Req(Q::Sym("M".into())), Sev::Drop, Sev::Req(Q::Sym("M".into()))],
@@ -1295,7 +1758,7 @@ fn corpus() -> Vec<CaseIn> {
         ],
         queries: {
             let mut q = syms(&["p.q.M", "p.q.OnlyInSecond", "p.q.S", "p.q.S2", "p.q.S.Get", "p.q.S.Put", "p.q.M.f"]);
-            q.extend([Q::File("a.proto".into()), Q::File("d.proto".into()), Q::List]);
+            q.extend([Q::File("a.proto".into()), Q::File("d.proto".into()), Q::List(String::new())]);
             q
         },
         script: vec![Sev::Drop, Sev::Req(Q::Sym("nope".into()))],
@@ -1315,7 +1778,7 @@ fn corpus() -> Vec<CaseIn> {
         }
         v.push(CaseIn {
             ops: vec![Op::Set(FileDescriptorSet { file: vec![b.clone(), f] })],
-            queries: vec![Q::List],
+            queries: vec![Q::List(String::new())],
             script: vec![],
         });
     }
@@ -1328,7 +1791,7 @@ fn corpus() -> Vec<CaseIn> {
         script: vec![],
     });
     // undecodable encoded set
-    v.push(CaseIn { ops: vec![Op::Enc(vec![0xff]), Op::Set(FileDescriptorSet { file: vec![a.clone()] })], queries: vec![Q::List], script: vec![] });
+    v.push(CaseIn { ops: vec![Op::Enc(vec![0xff]), Op::Set(FileDescriptorSet { file: vec![a.clone()] })], queries: vec![Q::List(String::new())], script: vec![] });
     // nothing registered at all, with and without the reflection descriptor
     for inc in [true, false] {
         v.push(CaseIn {
@@ -1343,10 +1806,10 @@ fn corpus() -> Vec<CaseIn> {
                     "grpc.reflection.v1alpha.ServerReflectionRequest.host",
                     "",
                 ]);
-                q.extend([Q::File("reflection_v1.proto".into()), Q::File("reflection_v1alpha.proto".into()), Q::List]);
+                q.extend([Q::File("reflection_v1.proto".into()), Q::File("reflection_v1alpha.proto".into()), Q::List(String::new())]);
                 q
             },
-            script: vec![Sev::Req(Q::Ext), Sev::Req(Q::List)],
+            script: vec![Sev::Req(Q::Ext("p.q.M".into(), 7)), Sev::Req(Q::List(String::new()))],
         });
     }
     // the user registers the v1 reflection descriptor too (duplicate registration of a real file)
@@ -1354,10 +1817,44 @@ fn corpus() -> Vec<CaseIn> {
         ops: vec![Op::Enc(tonic_reflection::pb::v1::FILE_DESCRIPTOR_SET.to_vec()), Op::Set(FileDescriptorSet { file: vec![b.clone()] })],
         queries: {
             let mut q = syms(&["grpc.reflection.v1.ServerReflection", "grpc.reflection.v1alpha.ServerReflection", "M"]);
-            q.push(Q::List);
+            q.push(Q::List(String::new()));
             q
         },
         script: vec![],
+    });
+    // extensions, enum values under both naming schemes, an encoded set with unknown fields
+    let mut x = fd("x.proto", Some("p.q"), 7);
+    let mut xm = m("M");
+    xm.enum_type.push(en("E", &["A"]));
+    xm.extension_range.push(prost_types::descriptor_proto::ExtensionRange { start: Some(100), end: Some(200), options: None });
+    xm.extension.push(FieldDescriptorProto { name: Some("inner_ext".into()), number: Some(101), extendee: Some(".p.q.M".into()), ..Default::default() });
+    x.message_type.push(xm);
+    x.enum_type.push(en("Top", &["X"]));
+    x.extension.push(FieldDescriptorProto { name: Some("ext1".into()), number: Some(100), extendee: Some(".p.q.M".into()), ..Default::default() });
+    x.options = Some(prost_types::FileOptions { go_package: Some("example.com/x".into()), ..Default::default() });
+    x.source_code_info = Some(prost_types::SourceCodeInfo {
+        location: vec![prost_types::source_code_info::Location { path: vec![4, 0], span: vec![1, 2, 3], leading_comments: Some(" c\n".into()), ..Default::default() }],
+    });
+    v.push(CaseIn {
+        ops: vec![Op::Enc(encode_with_unknown_fields(&FileDescriptorSet { file: vec![x] }).0), Op::Include(false)],
+        queries: {
+            let mut q = syms(&["p.q.M.E.A", "p.q.M.A", "p.q.Top.X", "p.q.X", "p.q.A", "p.q.ext1", "p.q.M.inner_ext", "p.q.M"]);
+            q.extend([
+                Q::File("x.proto".into()),
+                Q::Ext(".p.q.M".into(), 100),
+                Q::Ext("p.q.M".into(), 100),
+                Q::Ext("p.q.M".into(), 101),
+                Q::Ext("p.q.M".into(), 102),
+                Q::Ext("nope".into(), i32::MIN),
+                Q::AllExt("p.q.M".into()),
+                Q::AllExt(".p.q.M".into()),
+                Q::AllExt("nope".into()),
+                Q::AllExt("".into()),
+                Q::List("*".into()),
+            ]);
+            q
+        },
+        script: vec![Sev::Req(Q::AllExt("p.q.M".into())), Sev::Req(Q::Ext("p.q.M".into(), 100)), Sev::Req(Q::List("".into()))],
     });
     // empty names and names with dots: prefix handling of extract_name
     let mut e = fd("", Some(""), 6);
@@ -1370,7 +1867,7 @@ fn corpus() -> Vec<CaseIn> {
         ops: vec![Op::Set(FileDescriptorSet { file: vec![e] })],
         queries: {
             let mut q = syms(&["", "x", ".x", "a.b", ".a.b", "."]);
-            q.extend([Q::File("".into()), Q::List]);
+            q.extend([Q::File("".into()), Q::List(String::new())]);
             q
         },
         script: vec![],
@@ -1492,7 +1989,7 @@ fn main() {
         let input = json!({"case": id, "descr": describe(&c)});
         run_case(&rt, &mut out, "corpus.descriptor_set", c, input, &mut notes);
     }
-    let n = if a.thorough { 10000 } else { 1500 } * a.scale;
+    let n = if a.thorough { 8000 } else { 1500 } * a.scale;
     let mut r = Rng::new(a.seed);
     for _ in 0..n {
         let seed = r.next();
@@ -1506,8 +2003,24 @@ fn main() {
     }
     out.finish(
         &imports,
-        "one case = one random descriptor set (0-5 files; package absent/empty/single/nested; messages nested to depth 4 with fields, oneofs, enums and values; services with methods; the same file registered twice; two files under one name; the same symbol in several files; sometimes a missing name or an undecodable set) registered through register_file_descriptor_set / register_encoded_file_descriptor_set / with_service_name / include_reflection_service in random call order, then build_v1 and build_v1alpha each asked (generated clients, in-process) for every declared name, mutated and unknown names, every file name, ListServices, the extension requests, plus one scripted multi-request stream (malformed request, client drops the response stream). Non-trivial = at least 3 descriptors returned. Distinct = distinct (kind, model expression).",
-        json!({"observations": {
+        "one case = one random descriptor set (0-5 files; package absent/empty/single/nested; messages nested to depth 4 with fields, oneofs, enums and values; services with methods; every other field of File/Descriptor/Field/Enum/EnumValue/Oneof/Service/Method descriptors filled at random (options with uninterpreted options, source_code_info, extensions, extension and reserved ranges/names, public/weak dependencies, json_name, default_value, ...) and tied as a digest of the full encoding; encoded sets with unknown fields; the same file registered twice; two files under one name; the same symbol in several files; sometimes a missing name or an undecodable set) registered through register_file_descriptor_set / register_encoded_file_descriptor_set / with_service_name / include_reflection_service in random call order, then build_v1 and build_v1alpha each asked (generated clients, in-process) for every declared name, mutated and unknown names, every file name, ListServices, randomised extension requests, every enum value under both naming schemes, plus one scripted multi-request stream (malformed request, client drops the response stream). Non-trivial = at least 3 descriptors returned. Distinct = distinct (kind, model expression).",
+        json!({
+            "oracle_naming_schemes": "every name is scope + '.' + name (no dot after an empty package). Enum values: the oracle accepts BOTH protobuf's own fully-qualified name pkg.VALUE (sibling of the enum) and the enum-scoped pkg.Enum.VALUE; each value must resolve under at least one of the two, and whatever resolves must be a registered file declaring that value. The counts below show which scheme the implementation serves.",
+            "enum_value_lookups": {
+                "scoped_by_enum(pkg.Enum.VALUE)": {"found": notes.enum_value_scoped_found, "NOT_FOUND": notes.enum_value_scoped_not_found},
+                "protobuf_scoping(pkg.VALUE)": {"found": notes.enum_value_sibling_found, "NOT_FOUND": notes.enum_value_sibling_not_found},
+            },
+            "extension_lookups": {
+                "oracle": "the property does not ask for extension lookups: NOT_FOUND/UNIMPLEMENTED or a correct answer are accepted, a wrong file or an undeclared number is not",
+                "file_containing_extension_declared": {"found": notes.declared_extension_lookup_found, "NOT_FOUND": notes.declared_extension_lookup_not_found},
+                "file_containing_extension_undeclared_NOT_FOUND": notes.undeclared_extension_lookup_not_found,
+                "all_extension_numbers_empty_although_declared": notes.all_extension_numbers_declared_but_empty,
+                "all_extension_numbers_nonempty": notes.all_extension_numbers_nonempty,
+                "extension_field_name_as_symbol": {"found": notes.extension_name_found, "NOT_FOUND": notes.extension_name_not_found},
+            },
+            "observations": {
+            "file_registered_encoded_with_unknown_fields_is_returned_without_them(prost decode is what is registered)": notes.encoded_with_unknown_fields_returned_without_them,
+
             "symbol_of_a_file_shadowed_by_an_earlier_file_of_the_same_name_is_NOT_FOUND": notes.shadowed_symbol_not_found,
             "file_name_registered_with_two_contents_returns_only_one": notes.shadowed_file_not_retrievable,
             "symbol_declared_by_several_files_resolved_to_one_of_them": notes.duplicate_symbol_across_files,
